@@ -7,6 +7,7 @@ package harness
 
 import (
 	"fmt"
+	"github.com/platinummonkey/go-concurrency-limits/core"
 	"testing"
 	"testing/synctest"
 	"time"
@@ -25,7 +26,10 @@ type c02hCase struct {
 	Par     bool      `json:"par,omitempty"`
 }
 
-func runC02H(t *testing.T, c c02hCase) kit.Outcome {
+func runC02H(t *testing.T, c c02hCase) kit.Outcome { return runC02HFor(t, c, "c02") }
+
+// runC02HFor: prop "c20" additionally judges the queue gauges (C20: reported metrics match reality).
+func runC02HFor(t *testing.T, c c02hCase, prop string) kit.Outcome {
 	return bubble(t, func() kit.Outcome {
 		t0 := time.Now()
 		sc := newSched(c.Yields)
@@ -91,6 +95,13 @@ func runC02H(t *testing.T, c c02hCase) kit.Outcome {
 			viol = &o
 		case busy != n || gauge != n:
 			o := kit.Viol(kind+":leaked-capacity", "hand-off raced with the waiter's give-up: waiter returned ok=%v, %d granted token(s) outstanding, but strategy busy=%d and limiter gauge=%d; spawn order %v; points %v", snap.OK, n, busy, gauge, c.Order, sc.Trace)
+			viol = &o
+		case prop == "c20" && st.queue != nil && func() bool {
+			v, ok := st.reg.gauge(core.MetricQueueSize, "")
+			return !ok || int(v) != len(w.blocked()) || v < 0
+		}():
+			v, ok := st.reg.gauge(core.MetricQueueSize, "")
+			o := kit.Viol(kind+":queue-size-gauge", "after a hand-off raced with the waiter's give-up the queue_size gauge reports %v (registered=%v) while %d caller(s) are blocked; spawn order %v; points %v", v, ok, len(w.blocked()), c.Order, sc.Trace)
 			viol = &o
 		case st.queue != nil && st.queue.VerifBacklogLen() != 0:
 			o := kit.Viol(kind+":backlog", "backlog holds %d elements after the waiter returned", st.queue.VerifBacklogLen())
@@ -182,6 +193,48 @@ func TestC02_handoff_enum_Coop(t *testing.T) {
 					c := c02hCase{Stack: stk, GiveUp: give, Order: order, Outcome: code % 3, Yields: ys}
 					stop := kit.Watch("C02", t.Name(), c)
 					o := runC02H(t, c)
+					stop()
+					if !d.Account(c, o) {
+						return
+					}
+				}
+			}
+		}
+	}
+}
+
+// C20: the queue limiter's gauges under the same coincidences (a give-up racing a hand-off may evict the same
+// element twice; the reported size must stay the number of callers really blocked).
+func TestC20_queue_gauges_Coop(t *testing.T) {
+	kit.RequireMode(t, "coop")
+	if kit.Replay != "" {
+		kit.Check(t, kit.Prop[c02hCase]{ID: "C20", Run: func(t *testing.T, c c02hCase) kit.Outcome { return runC02HFor(t, c, "c20") }})
+		return
+	}
+	d := kit.NewDirect[c02hCase](t, "C20", "exhaustive: queue limiter (FIFO/LIFO) x give-up kind (cancel with eviction / backlog timer at the same instant) racing a hand-off x spawn order x completion outcome x yields in {0,1,3}^k (k=6, thorough 8); at quiescence the queue_size gauge equals the number of callers blocked; non-trivial = both the give-up and the hand-off were in progress")
+	k := 6
+	if kit.Thorough() {
+		k = 8
+	}
+	vals := []uint8{0, 1, 3}
+	total := 1
+	for i := 0; i < k; i++ {
+		total *= len(vals)
+	}
+	for _, ordering := range []string{"fifo", "lifo"} {
+		for _, give := range []string{"cancel", "timeout"} {
+			for _, order := range [][]int{{0, 1}, {1, 0}} {
+				for code := kit.Shard; code < total; code += kit.Shards {
+					ys := make(yieldList, k)
+					x := code
+					for i := range ys {
+						ys[i] = vals[x%len(vals)]
+						x /= len(vals)
+					}
+					stk := StackCfg{Kind: "queue", Ordering: ordering, Backlog: 2, TimeoutMs: 20, Strategy: "simple", Limit: 1, Inject: true, Evict: give == "cancel"}
+					c := c02hCase{Stack: stk, GiveUp: give, Order: order, Outcome: code % 3, Yields: ys}
+					stop := kit.Watch("C20", t.Name(), c)
+					o := runC02HFor(t, c, "c20")
 					stop()
 					if !d.Account(c, o) {
 						return
